@@ -36,7 +36,9 @@ EndsWithCR(line) == Len(line) > 0 /\ line[Len(line)] = CR
 HasCRorLF(t) == \E i \in 1..Len(t) : t[i] = CR \/ t[i] = LF
 HasLF(t) == \E i \in 1..Len(t) : t[i] = LF
 \* distance between consecutive lines
-LineHeightA(lh, ch) == IF lh[1] = 0 THEN lh[2] ELSE (ch * lh[2]) \div 100
+\* (percent split into hundreds and rest: ch * percent itself may exceed the 32-bit integers of TLC, the quotient is the same)
+PercentOf(ch, pct) == ch * (pct \div 100) + (ch * (pct % 100)) \div 100
+LineHeightA(lh, ch) == IF lh[1] = 0 THEN lh[2] ELSE PercentOf(ch, lh[2])
 \* a line whose painted box spans the columns xmin..xmax is aligned on x: it starts at x (Left),
 \* ends at x (Right), or its middle is within half a pixel of x (Center)
 AlignOK(align, x, xmin, xmax) ==
@@ -55,7 +57,7 @@ AlignBoxOK(align, x, x0, w) == AlignOK(align, x, x0, x0 + w - 1)
 (*          "crlf"    = after the repair D26 (current tree): ... and only     *)
 (*                      from lines that are followed by a line ending.        *)
 LineHeightT(f, ts) ==                                                       \* text.rs:109-114, text/mod.rs to_absolute
-  SatAsI32(IF ts.lh[1] = 0 THEN ts.lh[2] ELSE (FontLineHeightT(f) * ts.lh[2]) \div 100)
+  SatAsI32(IF ts.lh[1] = 0 THEN ts.lh[2] ELSE PercentOf(FontLineHeightT(f), ts.lh[2]))
 StripCR(line) == IF EndsWithCR(line) THEN SubSeq(line, 1, Len(line) - 1) ELSE line   \* :126-130
 \* "crlf" (the tree after the repair D26): the CR is removed only from a line that is followed by a line ending,
 \* i.e. not from the last item of split('\n'); "pinned" and "fixed" removed it from every line
